@@ -115,6 +115,10 @@ def deref_att(op):
     b = op.a.base
     if b._is_reg:
         bis = "(%{})".format(b)
+    elif b._is_cst:
+        # absolute address (moffs, or disp32/disp16 without base and index)
+        bis = "%s" % (b + op.a.disp)
+        disp = ""
     else:
         assert b._is_eqn
         if b.op.symbol == "*":
